@@ -176,7 +176,7 @@ theorem digitsVal_lt (ds : List Nat) (h : ∀ d ∈ ds, d < 10) : digitsVal ds <
 def Tables.OK (T : Tables) : Prop :=
   (∀ d, d < 10 → digitVal T (digitChar d) = some d) ∧
   (∀ d, d < 10 → isWs T (digitChar d) = false) ∧
-  isWs T '-' = false ∧ isWs T ':' = false ∧ 1 ≤ T.maxDigits
+  isWs T '-' = false ∧ isWs T ':' = false ∧ 4 ≤ T.maxDigits ∧ digitVal T '-' = none
 
 instance (T : Tables) : Decidable T.OK := by unfold Tables.OK; exact inferInstance
 
